@@ -125,7 +125,16 @@ def dtest(ctx, shard, nshards):
                 b = a
             ta, tb, ka, kb = _txt(rep, a, sa), _txt(rep, b, sb), a * 86400 + sa, b * 86400 + sb
             tagrep = rep + "+t"
-            if rnd.random() < 0.3:
+            if rnd.random() < 0.06:
+                # military midnight: (D-1)T24:00:00 is the instant D T00:00:00 (C11); half of the
+                # time against that very instant in the usual spelling
+                sa = 0
+                ta, ka = _txt(rep, a - 1, 0).replace("T00:00:00", "T24:00:00"), a * 86400
+                if rnd.random() < 0.5:
+                    b, sb = a, 0
+                    tb, kb = _txt(rep, b, sb), b * 86400
+                tagrep = "mil24:" + rep
+            elif rnd.random() < 0.3:
                 # both operands read in the same zone of constant offset: the order is the same
                 pre = ["--from-zone", rnd.choice(("Etc/GMT+5", "Etc/GMT-14", "Etc/GMT+12", "UTC"))]
                 tagrep += "+zone"
